@@ -275,50 +275,55 @@ Qed.
 Section Newest.
   Variable allowed : version -> bool.
 
-  Definition scan (l : list version) (ret : version) : version :=
-    fold_left (fun ret v => newest_step allowed v ret) l ret.
+  Definition scan (l : list version) (ret : option version) : option version :=
+    fold_left (fun ret v => allowed_step allowed v ret) l ret.
 
-  Lemma scan_cons v l ret : scan (v :: l) ret = scan l (newest_step allowed v ret).
+  Lemma scan_cons v l ret : scan (v :: l) ret = scan l (allowed_step allowed v ret).
   Proof. reflexivity. Qed.
 
+  (* "ret is below v", with "none yet" below everything *)
+  Definition below (ret : option version) (v : version) : bool :=
+    match ret with None => true | Some r => vlt r v end.
+
   Lemma step_cases v ret :
-    (newest_step allowed v ret = v /\ vlt ret v = true /\ allowed v = true) \/
-    (newest_step allowed v ret = ret /\ (vlt ret v = false \/ allowed v = false)).
+    (allowed_step allowed v ret = Some v /\ below ret v = true /\ allowed v = true) \/
+    (allowed_step allowed v ret = ret /\ (below ret v = false \/ allowed v = false)).
   Proof.
-    unfold newest_step. rewrite vgt_vlt.
-    destruct (vlt ret v), (allowed v); cbn; auto.
+    unfold allowed_step, below. destruct ret as [r|]; [rewrite vgt_vlt|];
+      destruct (allowed v); cbn; try destruct (vlt r v); cbn; auto.
   Qed.
 
-  (* invariant of the scan: the current value never decreases *)
-  Lemma scan_ge_init l : forall ret, vlt (scan l ret) ret = false.
+  (* invariant of the scan: once there is a value there is one, and it never decreases *)
+  Lemma scan_some l : forall r, exists r', scan l (Some r) = Some r' /\ vlt r' r = false.
   Proof.
-    induction l as [|v l IH]; intros ret; [apply vlt_irrefl|].
+    induction l as [|v l IH]; intros r; [exists r; split; [reflexivity|apply vlt_irrefl]|].
     rewrite scan_cons.
-    destruct (step_cases v ret) as [(-> & E & _)|(-> & _)]; [|apply IH].
-    destruct (vlt (scan l v) ret) eqn:E2; [|reflexivity].
-    pose proof (vlt_trans _ _ _ E2 E) as H. now rewrite IH in H.
+    destruct (step_cases v (Some r)) as [(-> & E & _)|(-> & _)]; [|apply IH].
+    cbn [below] in E. destruct (IH v) as (r' & Hs & Hge). exists r'. split; [exact Hs|].
+    destruct (vlt r' r) eqn:E2; [|reflexivity].
+    pose proof (vlt_trans _ _ _ E2 E) as H. congruence.
   Qed.
 
-  Lemma scan_max l : forall ret w, In w l -> allowed w = true -> vlt (scan l ret) w = false.
+  Lemma scan_max l : forall ret w, In w l -> allowed w = true ->
+    exists r', scan l ret = Some r' /\ vlt r' w = false.
   Proof.
     induction l as [|v l IH]; intros ret w Hin Hw; [contradiction|].
     rewrite scan_cons. destruct Hin as [<-|Hin]; [|now apply IH].
-    destruct (step_cases v ret) as [(-> & E & _)|(-> & [E|E])]; [apply scan_ge_init| |congruence].
-    pose proof (scan_ge_init l ret) as H.
-    destruct (vlt (scan l ret) v) eqn:E2; [|reflexivity].
-    pose proof (vle_lt_trans _ _ _ H E2). congruence.
+    destruct (step_cases v ret) as [(-> & E & _)|(-> & [E|E])]; [apply scan_some| |congruence].
+    destruct ret as [r|]; [|discriminate]. cbn [below] in E.
+    destruct (scan_some l r) as (r' & Hs & Hge). exists r'. split; [exact Hs|].
+    destruct (vlt r' v) eqn:E2; [|reflexivity].
+    pose proof (vle_lt_trans _ _ _ Hge E2). congruence.
   Qed.
 
-  Lemma scan_result l : forall ret,
-    scan l ret = ret \/ (In (scan l ret) l /\ allowed (scan l ret) = true /\ vlt ret (scan l ret) = true).
+  Lemma scan_result l : forall ret r', scan l ret = Some r' ->
+    ret = Some r' \/ (In r' l /\ allowed r' = true).
   Proof.
-    induction l as [|v l IH]; intros ret; [now left|].
-    rewrite scan_cons.
-    destruct (step_cases v ret) as [(-> & E1 & E2)|(-> & _)].
-    - right. destruct (IH v) as [->|(Hin & Ha & Hlt)]; [cbn; auto|].
-      repeat split; [now right|exact Ha|]. eapply vlt_trans; eauto.
-    - destruct (IH ret) as [->|(Hin & Ha & Hlt)]; [now left|]. right.
-      repeat split; [now right|exact Ha|exact Hlt].
+    induction l as [|v l IH]; intros ret r' H; [now left|].
+    rewrite scan_cons in H.
+    destruct (step_cases v ret) as [(E0 & E1 & E2)|(E0 & _)]; rewrite E0 in H.
+    - right. destruct (IH _ _ H) as [[= <-]|(Hin & Ha)]; [split; [now left|exact E2]|split; [now right|exact Ha]].
+    - destruct (IH _ _ H) as [->|(Hin & Ha)]; [now left|right; split; [now right|exact Ha]].
   Qed.
 End Newest.
 
@@ -354,33 +359,38 @@ Theorem select_version_max offered allowed v :
   In v offered /\ allowed v = true /\
   forall w, In w offered -> allowed w = true -> vlt v w = false.
 Proof.
-  unfold select_version, newest_in_set'.
-  change (fold_left (fun ret v0 => newest_step allowed v0 ret) (rev (sort_versions offered)) unspecified)
-    with (scan allowed (rev (sort_versions offered)) unspecified).
-  set (l := rev (sort_versions offered)).
-  destruct (version_eqb (scan allowed l unspecified) unspecified) eqn:E; [discriminate|].
-  intros [= <-].
+  unfold select_version, newest_allowed.
+  change (fold_left (fun ret v0 => allowed_step allowed v0 ret) (rev (sort_versions offered)) None)
+    with (scan allowed (rev (sort_versions offered)) None).
+  set (l := rev (sort_versions offered)). intros H.
   assert (Hl : forall w, In w l <-> In w offered).
   { intros w. unfold l. rewrite <- in_rev. apply sort_versions_In. }
-  destruct (scan_result allowed l unspecified) as [H|(Hin & Ha & _)].
-  - rewrite H in E. assert (version_eqb unspecified unspecified = true) by reflexivity. congruence.
-  - split; [now apply Hl|]. split; [exact Ha|].
-    intros w Hw Haw. apply scan_max; [now apply Hl|exact Haw].
+  destruct (scan_result allowed l None v H) as [E|(Hin & Ha)]; [discriminate|].
+  split; [now apply Hl|]. split; [exact Ha|].
+  intros w Hw Haw. destruct (scan_max allowed l None w (proj2 (Hl w) Hw) Haw) as (r' & Hs & Hge).
+  rewrite H in Hs. now injection Hs as <-.
 Qed.
 
-(* Completeness: if some offered allowed version is above 0.0.0, one is selected. *)
+(* Completeness: if some offered version is allowed, one is selected - 0.0.0
+   and its pre-releases included. *)
 Theorem select_version_complete offered allowed w :
-  In w offered -> allowed w = true -> vlt unspecified w = true ->
+  In w offered -> allowed w = true ->
   exists v, select_version offered allowed = Some v.
 Proof.
-  intros Hin Ha Hlt. unfold select_version, newest_in_set'.
-  change (fold_left (fun ret v0 => newest_step allowed v0 ret) (rev (sort_versions offered)) unspecified)
-    with (scan allowed (rev (sort_versions offered)) unspecified).
+  intros Hin Ha. unfold select_version, newest_allowed.
+  change (fold_left (fun ret v0 => allowed_step allowed v0 ret) (rev (sort_versions offered)) None)
+    with (scan allowed (rev (sort_versions offered)) None).
   set (l := rev (sort_versions offered)).
   assert (Hl : In w l) by (unfold l; rewrite <- in_rev; now apply sort_versions_In).
-  destruct (version_eqb (scan allowed l unspecified) unspecified) eqn:E; [|eauto].
-  apply version_eqb_spec in E. pose proof (scan_max allowed l unspecified w Hl Ha) as H.
-  rewrite E in H. congruence.
+  destruct (scan_max allowed l None w Hl Ha) as (r' & Hs & _). eauto.
+Qed.
+
+(* ... and conversely nothing is selected only if nothing offered is allowed *)
+Theorem select_version_none offered allowed :
+  select_version offered allowed = None -> forall w, In w offered -> allowed w = false.
+Proof.
+  intros H w Hin. destruct (allowed w) eqn:Ha; [|reflexivity].
+  destruct (select_version_complete offered allowed w Hin Ha) as (v & Hv). congruence.
 Qed.
 
 (* Listing order does not matter, up to build metadata. *)
@@ -401,20 +411,8 @@ Theorem select_version_perm_some offered offered' allowed v :
   Permutation offered offered' ->
   select_version offered allowed = Some v -> exists v', select_version offered' allowed = Some v'.
 Proof.
-  intros Hp H1. pose proof H1 as H0.
-  apply select_version_max in H1 as (Hin1 & Ha1 & Hmax1).
-  apply (select_version_complete offered' allowed v);
-    [eapply Permutation_in; eauto|exact Ha1|].
-  (* v came out of a scan started at 0.0.0 and differs from it, so it is above it *)
-  unfold select_version, newest_in_set' in H0.
-  change (fold_left (fun ret v0 => newest_step allowed v0 ret) (rev (sort_versions offered)) unspecified)
-    with (scan allowed (rev (sort_versions offered)) unspecified) in H0.
-  set (l := rev (sort_versions offered)) in *.
-  destruct (version_eqb (scan allowed l unspecified) unspecified) eqn:E; [discriminate|].
-  injection H0 as H0.
-  destruct (scan_result allowed l unspecified) as [H|(_ & _ & Hlt)].
-  - rewrite H in E. assert (version_eqb unspecified unspecified = true) by reflexivity. congruence.
-  - now rewrite H0 in Hlt.
+  intros Hp H1. apply select_version_max in H1 as (Hin1 & Ha1 & _).
+  apply (select_version_complete offered' allowed v); [eapply Permutation_in; eauto|exact Ha1].
 Qed.
 
 (* An exact allowed set selects exactly that version (AddFinalRegistrySource). *)
